@@ -127,7 +127,7 @@ theorem eofOk_congr {y y' : St} {seen : Nat} {eof : Bool} (hc : y'.connected = y
   · unfold Started at h2 ⊢; rw [hk, hf]; exact h2
   · rw [hs]; exact h3
 
-theorem eofOk_step {y : St} {seen : Nat} {eof : Bool} (st : Step) (hok : stepOk y st = true) (hy : SInv y)
+theorem eofOk_step {y : St} {seen : Nat} {eof : Bool} (st : Step) (hok : stepOkSync y st = true) (hy : SInv y)
     (h : EofOk y seen eof) : EofOk (Dul.step y st) seen eof := by
   intro he
   obtain ⟨h1, h2, h3⟩ := h he
